@@ -60,6 +60,7 @@ type Family struct {
 	Calls     func(u *Unit, i int, text string) []work.Call // default: one JSON call per document
 	Level     string
 	Consts    bool // observe the string constants declared by each (singleton) program
+	JudgeBuild bool // a program that generates but does not compile is an event too (unit.nobuild predicts it)
 	Rule      string
 	ExtraCfg  func(tier string) string // extra CONSTANTS lines for the MC cfg
 	Assume    []string
@@ -82,6 +83,7 @@ type Tally struct {
 
 type obsEvent struct {
 	Unit   map[string]any `json:"unit"`
+	Built  bool           `json:"built"`
 	Res    []obsRes       `json:"res"`
 	GoType string         `json:"gotype"` // Go type of the field bound to property "x" ("" if none)
 	Consts []any          `json:"consts,omitempty"` // values of the string constants declared by the program
@@ -420,11 +422,14 @@ func unitSchema(u *Unit, ren abs.RefRename) (string, error) {
 }
 
 // Observation builds the trace event of an executed unit (nil if the unit could not be observed).
-func Observation(e *Exec) (*obsEvent, error) {
+func Observation(e *Exec, judgeBuild bool) (*obsEvent, error) {
+	if judgeBuild && e.GenErr == "" && !e.Built && e.BuildErr != "" {
+		return &obsEvent{Unit: e.Unit.Raw, Built: false, Res: []obsRes{}}, nil
+	}
 	if !e.Built || e.Out == nil || e.Out.Miss || len(e.Out.Res) != len(e.Texts) {
 		return nil, nil
 	}
-	ev := &obsEvent{Unit: e.Unit.Raw}
+	ev := &obsEvent{Unit: e.Unit.Raw, Built: true}
 	if e.HasConsts {
 		ev.Consts = []any{}
 		for _, c := range e.Consts {
